@@ -225,7 +225,7 @@ impl ControllerFactory for MonCcFactory {
             l.mtu = current_mtu;
             l.instances += 1;
         }
-        Box::new(MonCc { inner, shared: self.shared.clone(), mtu: current_mtu })
+        Box::new(MonCc { inner, shared: self.shared.clone(), mtu: current_mtu, cong_since_acks: false, mtu_raised: false })
     }
 }
 
@@ -233,6 +233,10 @@ pub struct MonCc {
     inner: Option<Box<dyn Controller>>,
     shared: Arc<CcShared>,
     mtu: u16,
+    /// a congestion event was reported since the last `on_end_acks`
+    cong_since_acks: bool,
+    /// `on_mtu_update` has raised the MTU above the one the controller was built with
+    mtu_raised: bool,
 }
 
 impl MonCc {
@@ -243,9 +247,21 @@ impl MonCc {
             l.window_reads += 1;
             l.min_window_seen = l.min_window_seen.min(w);
             if w < 2 * self.mtu as u64 && l.floor_violations.len() < 8 {
-                l.floor_violations.push(format!("window {w} < 2 x mtu {} after {what}", self.mtu));
+                l.floor_violations.push(format!("{}window {w} < 2 x mtu {} after {what}", floor_tag(self.cong_since_acks, self.mtu_raised), self.mtu));
             }
         }
+    }
+}
+
+/// The two histories in which BBR is known to report a tiny window (see known findings); any
+/// other history is not covered by that finding.
+pub fn floor_tag(cong_since_acks: bool, mtu_raised: bool) -> &'static str {
+    if cong_since_acks {
+        "[read between a congestion event and the next ack batch] "
+    } else if mtu_raised {
+        "[MTU raised after the controller was built] "
+    } else {
+        ""
     }
 }
 
@@ -285,6 +301,7 @@ impl Controller for MonCc {
         if let Some(i) = &mut self.inner {
             i.on_end_acks(now, in_flight, app_limited, largest);
         }
+        self.cong_since_acks = false;
         self.check_floor("on_end_acks");
     }
     fn on_congestion_event(&mut self, now: Instant, sent: Instant, persistent: bool, is_ecn: bool, lost_bytes: u64) {
@@ -296,6 +313,7 @@ impl Controller for MonCc {
         if let Some(i) = &mut self.inner {
             i.on_congestion_event(now, sent, persistent, is_ecn, lost_bytes);
         }
+        self.cong_since_acks = true;
         self.check_floor("on_congestion_event");
     }
     fn on_spurious_congestion_event(&mut self) {
@@ -305,6 +323,9 @@ impl Controller for MonCc {
         self.check_floor("on_spurious_congestion_event");
     }
     fn on_mtu_update(&mut self, new_mtu: u16) {
+        if new_mtu > self.mtu {
+            self.mtu_raised = true;
+        }
         self.mtu = new_mtu;
         {
             let mut l = self.shared.log.lock().unwrap();
@@ -327,7 +348,7 @@ impl Controller for MonCc {
         }
     }
     fn clone_box(&self) -> Box<dyn Controller> {
-        Box::new(MonCc { inner: self.inner.as_ref().map(|i| i.clone_box()), shared: self.shared.clone(), mtu: self.mtu })
+        Box::new(MonCc { inner: self.inner.as_ref().map(|i| i.clone_box()), shared: self.shared.clone(), mtu: self.mtu, cong_since_acks: self.cong_since_acks, mtu_raised: self.mtu_raised })
     }
     fn initial_window(&self) -> u64 {
         match &self.inner {
